@@ -253,8 +253,12 @@ def run(ctx, rep):
 
     # move detection by inode is only sound while the recorded inodes are still meaningful: the site that discards them before a
     # scan and the site that decides whether a found inode is trusted must look at the same disk conditions
+    inode_trust_rule(P, rep, 'R-C19-8')
+
+
+def inode_trust_rule(P, rep, rid):
     import re as _re
-    rep.rule('R-C19-8', 'inode trust: the conditions under which scan discards the recorded inodes (volatile inodes, changed UUID, unsupported UUID) are the same at the discarding site and in scan_file', 1)
+    rep.rule(rid, 'inode trust: the conditions under which scan discards the recorded inodes (volatile inodes, changed UUID, unsupported UUID) are the same at the discarding site and in scan_file', 1)
     def disk_flags(f, o, seen=None, depth=0):
         """disk->has_* members an i1/i32 value depends on (through the short-circuit phis of a || / && chain)"""
         seen = set() if seen is None else seen
@@ -306,6 +310,6 @@ def run(ctx, rep):
                             pre.add(b); disc |= fl
     if not trust or where is None:
         raise AnalysisBroken('inode trust sites not found (trust flags %s, discarding site %s)' % (sorted(trust), where and where.name))
-    rep.check(trust == disc, 'R-C19-8', 'scan_file and %s agree on when recorded inodes are not trusted' % base(where.name), where.file,
+    rep.check(trust == disc, rid, 'scan_file and %s agree on when recorded inodes are not trusted' % base(where.name), where.file,
               'both test %s' % sorted(trust) if trust == disc else 'scan_file tests %s, the discarding site tests %s: with the missing condition stale inode numbers stay in the inode set and an unrelated file can be taken as moved' % (sorted(trust), sorted(disc)),
               function=base(where.name), construct='inode trust conditions')
